@@ -483,7 +483,7 @@ class Interp:
 
     def wrote(self, oid, what):
         self.version += 1
-        for fr in getattr(self, "write_logs", []):
+        for fr in self.write_logs:
             fr.add((oid, what))
 
     def fget(self, obj, name, heap=None):
